@@ -53,7 +53,12 @@ def run_graphs(ctx, lib, graphs, obs, classes, invariants, maxlen=60, jobs=8):
             if ctx.violations:
                 ctx.notes.append("replay of %s/%s skipped after a violation was found" % (name, cls))
                 continue
-            st = pipeline.replay_validate(ctx, "%s-%s" % (name, cls), "vf.drv_core", [lib, cls], walks, "Trace_Core",
+            # every walk for the first object class (full edge coverage); a quarter of them, drawn at random, for each
+            # further class when the graph is large (keeps the thorough tier within about half an hour)
+            wk = walks
+            if cls != classes[0] and len(walks) > 40000:
+                wk = random.Random(ctx.seed + len(cls)).sample(walks, len(walks) // 4)
+            st = pipeline.replay_validate(ctx, "%s-%s" % (name, cls), "vf.drv_core", [lib, cls], wk, "Trace_Core",
                                           trace_consts(c, obs), invariants=invariants, jobs=jobs)
             pipeline.report_rejections(ctx, "%s-%s" % (name, cls), st, "vf.drv_core", [lib, cls])
             accepted += st.accepted
